@@ -22,39 +22,71 @@ Proof.
       * intros j H. destruct (Nat.eq_dec j s) as [->|]; auto. apply IH. lia.
 Qed.
 
+(* hashability of pool keys *)
+Lemma key_ok_range : forall pool i, i < List.length pool -> exists b, key_ok pool i = Some b.
+Proof.
+  intros pool i H. unfold key_ok, key_at. destruct (nth_error pool i) eqn:E; simpl; eauto.
+  apply nth_error_None in E. lia.
+Qed.
+Lemma gokey_eqb_hashable : forall a b, gokey_eqb a b = true -> hashable a = true /\ hashable b = true.
+Proof. intros [] []; simpl; intro H; try discriminate; auto. Qed.
+Lemma same_key_hashable : forall pool i j, same_key pool i j = true -> key_hashable pool i = true /\ key_hashable pool j = true.
+Proof.
+  intros pool i j H. unfold same_key in H. unfold key_hashable, key_ok.
+  destruct (key_at pool i) as [a|]; try discriminate. destruct (key_at pool j) as [b|]; try discriminate.
+  simpl. destruct (gokey_eqb_hashable a b H) as [-> ->]. auto.
+Qed.
+
 Section Refine.
   Variable pool : list ref.
   Variable tst : nat -> nat -> bool.
   Let n := List.length pool.
   Let sk := same_key pool.
-  Hypothesis Hhash : forall i, i < n -> key_ok pool i = Some true.
-  Hypothesis Hcoh : forall i j, i < n -> j < n -> sk i j = tst i j.
-  Hypothesis Hrefl : forall i, i < n -> tst i i = true.
-  Hypothesis Hsym : forall i j, i < n -> j < n -> tst i j = tst j i.
-  Hypothesis Htrans : forall i j k, i < n -> j < n -> k < n -> tst i j = true -> tst j k = true -> tst i k = true.
+  Let hk := key_hashable pool.
+  (* a good index: in range and hashable *)
+  Definition good (i : nat) : Prop := i < n /\ hk i = true.
+  Hypothesis Hcoh : forall i j, good i -> good j -> sk i j = tst i j.
+  Hypothesis Hsep : forall i j, i < n -> j < n -> hk i = false -> hk j = true -> tst i j = false /\ tst j i = false.
+  Hypothesis Hrefl : forall i, good i -> tst i i = true.
+  Hypothesis Hsym : forall i j, good i -> good j -> tst i j = tst j i.
+  Hypothesis Htrans : forall i j k, good i -> good j -> good k -> tst i j = true -> tst j k = true -> tst i k = true.
 
-  Lemma sk_refl : forall i, i < n -> sk i i = true.
+  Lemma good_lt : forall i, good i -> i < n.
+  Proof. intros i [H _]. exact H. Qed.
+  Lemma good_key_ok : forall i, good i -> key_ok pool i = Some true.
+  Proof.
+    intros i [H K]. unfold hk, key_hashable in K. destruct (key_ok pool i) as [[|]|]; try discriminate; reflexivity.
+  Qed.
+  Lemma bad_key_ok : forall i, i < n -> hk i = false -> key_ok pool i = Some false.
+  Proof.
+    intros i H K. destruct (key_ok_range pool i H) as [b E]. unfold hk, key_hashable in K. rewrite E in *.
+    destruct b; try discriminate; reflexivity.
+  Qed.
+  Lemma sk_good_l : forall i j, i < n -> sk i j = true -> good i.
+  Proof. intros i j H E. split; auto. apply (same_key_hashable pool i j E). Qed.
+
+  Lemma sk_refl : forall i, good i -> sk i i = true.
   Proof. intros. rewrite Hcoh; auto. Qed.
-  Lemma sk_sym : forall i j, i < n -> j < n -> sk i j = sk j i.
+  Lemma sk_sym : forall i j, good i -> good j -> sk i j = sk j i.
   Proof. intros. rewrite !Hcoh; auto. Qed.
-  Lemma sk_trans : forall i j k, i < n -> j < n -> k < n -> sk i j = true -> sk j k = true -> sk i k = true.
+  Lemma sk_trans : forall i j k, good i -> good j -> good k -> sk i j = true -> sk j k = true -> sk i k = true.
   Proof. intros i j k Hi Hj Hk. rewrite !Hcoh; auto. apply Htrans; auto. Qed.
   (* if j ~ i then k ~ i iff k ~ j *)
-  Lemma sk_cong : forall i j k, i < n -> j < n -> k < n -> sk i j = true -> sk k i = sk k j.
+  Lemma sk_cong : forall i j k, good i -> good j -> good k -> sk i j = true -> sk k i = sk k j.
   Proof.
     intros i j k Hi Hj Hk E. destruct (sk k i) eqn:A, (sk k j) eqn:B; auto.
     - rewrite (sk_trans k i j) in B; auto.
     - rewrite (sk_trans k j i) in A; auto. rewrite sk_sym; auto.
   Qed.
 
-  Definition valid (st : tstate) : Prop := Forall (fun e => fst e < n) st.
+  Definition valid (st : tstate) : Prop := Forall (fun e => good (fst e)) st.
   Fixpoint nodupk (st : tstate) : Prop :=
     match st with
     | [] => True
     | e :: st' => (forall e', In e' st' -> sk (fst e) (fst e') = false) /\ nodupk st'
     end.
 
-  Lemma t_find_put : forall st i v k, valid st -> i < n -> k < n ->
+  Lemma t_find_put : forall st i v k, valid st -> good i -> good k ->
     t_find pool (t_put pool st i v) k = if sk k i then Some v else t_find pool st k.
   Proof.
     induction st as [|[j w] st IH]; intros i v k V Hi Hk; simpl.
@@ -66,7 +98,7 @@ Section Refine.
         destruct (sk k i) eqn:Eki; auto.
         rewrite (sk_trans i k j) in Eij; auto; try discriminate. rewrite sk_sym; auto.
   Qed.
-  Lemma t_find_del : forall st i k, valid st -> i < n -> k < n ->
+  Lemma t_find_del : forall st i k, valid st -> good i -> good k ->
     t_find pool (t_del pool st i) k = if sk k i then None else t_find pool st k.
   Proof.
     induction st as [|[j w] st IH]; intros i k V Hi Hk; simpl.
@@ -89,10 +121,12 @@ Section Refine.
       + destruct H as [<-|H]; [right; exists (j, w); simpl; auto|].
         destruct (IH _ _ _ H) as [E|(e' & I & E)]; auto. right. exists e'. simpl. auto.
   Qed.
-  Lemma valid_put : forall st i v, valid st -> i < n -> valid (t_put pool st i v).
+  Lemma valid_in : forall st e, valid st -> In e st -> good (fst e).
+  Proof. intros st e V I. unfold valid in V. rewrite Forall_forall in V. auto. Qed.
+  Lemma valid_put : forall st i v, valid st -> good i -> valid (t_put pool st i v).
   Proof.
     intros st i v V Hi. apply Forall_forall. intros e H. destruct (in_put_keys _ _ _ _ H) as [->|(e' & I & <-)]; auto.
-    unfold valid in V. rewrite Forall_forall in V. auto.
+    apply (valid_in st); auto.
   Qed.
   Lemma in_del : forall st i e, In e (t_del pool st i) -> In e st.
   Proof.
@@ -101,9 +135,9 @@ Section Refine.
   Qed.
   Lemma valid_del : forall st i, valid st -> valid (t_del pool st i).
   Proof.
-    intros st i V. apply Forall_forall. intros e H. apply in_del in H. unfold valid in V. rewrite Forall_forall in V. auto.
+    intros st i V. apply Forall_forall. intros e H. apply in_del in H. apply (valid_in st); auto.
   Qed.
-  Lemma nodupk_put : forall st i v, valid st -> i < n -> nodupk st -> nodupk (t_put pool st i v).
+  Lemma nodupk_put : forall st i v, valid st -> good i -> nodupk st -> nodupk (t_put pool st i v).
   Proof.
     induction st as [|[j w] st IH]; intros i v V Hi ND; simpl.
     - split; auto. intros e' [].
@@ -122,42 +156,77 @@ Section Refine.
     split; auto. intros e' H. apply N1. eapply in_del; eauto.
   Qed.
 
+  (* the accepted history names good keys only *)
+  Definition hist_good (hist : list hop) : Prop :=
+    Forall (fun o => match op_key o with Some j => good j | None => True end) hist.
+  Lemma s_lookup_bad : forall hist k, hist_good hist -> k < n -> hk k = false -> s_lookup tst hist k = None.
+  Proof.
+    induction hist as [|o hist IH]; intros k G Hk B; simpl; auto.
+    inversion G as [|? ? Go G']; subst.
+    destruct o as [j v|j|j| | |]; simpl in Go; auto.
+    - destruct Go as [Hj Kj]. destruct (Hsep k j Hk Hj B Kj) as [-> _]. auto.
+    - destruct Go as [Hj Kj]. destruct (Hsep k j Hk Hj B Kj) as [-> _]. auto.
+  Qed.
+
   (* the invariant tying the association list to the history *)
   Definition Inv (st : tstate) (hist : list hop) : Prop :=
-    valid st /\ nodupk st /\ forall k, k < n -> t_find pool st k = s_lookup tst hist k.
+    valid st /\ nodupk st /\ hist_good hist /\ forall k, good k -> t_find pool st k = s_lookup tst hist k.
 
   Lemma Inv_init : Inv [] [].
-  Proof. repeat split; simpl; auto. constructor. Qed.
+  Proof. repeat split; simpl; auto; constructor. Qed.
+
+  Lemma refused_iff : forall o, op_in_range n o = true ->
+    op_refused pool o = true <-> exists i, op_key o = Some i /\ i < n /\ hk i = false.
+  Proof.
+    intros o R. unfold op_refused. destruct o as [i v|i|i| | |]; simpl in *; try apply Nat.ltb_lt in R;
+      try (split; [discriminate | intros (i' & E & _); discriminate]).
+    all: fold (hk i); split; [intro H; exists i; repeat split; auto; apply negb_true_iff; exact H
+                             | intros (i' & E & _ & H); inversion E; subst; rewrite H; reflexivity].
+  Qed.
+  Lemma accepted_good : forall o i, op_in_range n o = true -> op_refused pool o = false -> op_key o = Some i -> good i.
+  Proof.
+    intros o i R A K. unfold op_refused in A. rewrite K in A. apply negb_false_iff in A.
+    split; auto. destruct o; simpl in *; inversion K; subst; apply Nat.ltb_lt; assumption.
+  Qed.
 
   Lemma Inv_step : forall st hist o, Inv st hist -> op_in_range n o = true ->
-    Inv (fst (t_step pool st o)) (o :: hist).
+    Inv (fst (t_step pool st o)) (s_next pool hist o).
   Proof.
-    intros st hist o (V & ND & L) R. destruct o as [i v|i|i| | |]; simpl in R; try apply Nat.ltb_lt in R; simpl.
-    - rewrite (Hhash i R). simpl. repeat split.
-      + apply valid_put; auto.
-      + apply nodupk_put; auto.
-      + intros k Hk. rewrite t_find_put by auto. rewrite Hcoh by auto. rewrite L by auto. reflexivity.
-    - rewrite (Hhash i R). simpl. repeat split; auto.
-    - rewrite (Hhash i R). simpl. repeat split.
-      + apply valid_del; auto.
-      + apply nodupk_del; auto.
-      + intros k Hk. rewrite t_find_del by auto. rewrite Hcoh by auto. rewrite L by auto. reflexivity.
-    - repeat split; simpl; auto. constructor.
-    - repeat split; auto.
-    - repeat split; auto.
+    intros st hist o (V & ND & HG & L) R. unfold s_next. destruct (op_refused pool o) eqn:Ref.
+    - (* refused: nothing changes *)
+      apply refused_iff in Ref; auto. destruct Ref as (i & K & Hi & B).
+      pose proof (bad_key_ok i Hi B) as KO.
+      destruct o; simpl in K; inversion K; subst; simpl; rewrite KO; simpl; repeat split; auto.
+    - assert (HG' : hist_good (o :: hist)).
+      { constructor; auto. destruct (op_key o) as [i|] eqn:K; auto. apply (accepted_good o i R Ref K). }
+      destruct o as [i v|i|i| | |]; simpl.
+      + pose proof (accepted_good _ i R Ref eq_refl) as Gi. rewrite (good_key_ok i Gi). simpl. repeat split; auto.
+        * apply valid_put; auto.
+        * apply nodupk_put; auto.
+        * intros k Hk. rewrite t_find_put by auto. rewrite Hcoh by auto. rewrite L by auto. reflexivity.
+      + pose proof (accepted_good _ i R Ref eq_refl) as Gi. rewrite (good_key_ok i Gi). simpl. repeat split; auto.
+      + pose proof (accepted_good _ i R Ref eq_refl) as Gi. rewrite (good_key_ok i Gi). simpl. repeat split; auto.
+        * apply valid_del; auto.
+        * apply nodupk_del; auto.
+        * intros k Hk. rewrite t_find_del by auto. rewrite Hcoh by auto. rewrite L by auto. reflexivity.
+      + repeat split; simpl; auto. constructor.
+      + repeat split; auto.
+      + repeat split; auto.
   Qed.
 
   (* ---- the entries: as a set, those of the finite map ------------------------------------------------ *)
-  Lemma canon_spec : forall j, j < n ->
-    canon pool j < n /\ sk (canon pool j) j = true /\ forall j', j' < canon pool j -> sk j' j = false.
+  Lemma canon_spec : forall j, good j ->
+    good (canon pool j) /\ sk (canon pool j) j = true /\ forall j', j' < canon pool j -> sk j' j = false.
   Proof.
-    intros j Hj. unfold canon. fold n.
+    intros j Gj. pose proof (good_lt j Gj) as Hj. unfold canon. fold n.
     pose proof (find_seq_spec (fun j' => same_key pool j' j) n 0) as F.
     destruct (find (fun j' => same_key pool j' j) (seq 0 n)) as [c|].
-    - destruct F as (B & T & L). repeat split; try lia; auto. intros j' H. apply L. lia.
+    - destruct F as (B & T & L). repeat split; try lia; auto.
+      + apply (same_key_hashable pool c j T).
+      + intros j' H. apply L. lia.
     - exfalso. specialize (F j ltac:(lia)). fold sk in F. rewrite sk_refl in F; auto. discriminate.
   Qed.
-  Lemma canon_least : forall i j, i < n -> j < n -> sk i j = true -> (forall j', j' < i -> sk j' j = false) -> canon pool j = i.
+  Lemma canon_least : forall i j, good i -> good j -> sk i j = true -> (forall j', j' < i -> sk j' j = false) -> canon pool j = i.
   Proof.
     intros i j Hi Hj E L. destruct (canon_spec j Hj) as (B & T & M).
     destruct (Nat.lt_trichotomy (canon pool j) i) as [H|[H|H]]; auto.
@@ -172,13 +241,13 @@ Section Refine.
     - inversion H; subst. exists j. simpl. auto.
     - destruct (IH _ _ H) as (j' & I & E'). exists j'. simpl. auto.
   Qed.
-  Lemma t_find_in : forall st i j v, valid st -> nodupk st -> i < n -> In (j, v) st -> sk i j = true -> t_find pool st i = Some v.
+  Lemma t_find_in : forall st i j v, valid st -> nodupk st -> good i -> In (j, v) st -> sk i j = true -> t_find pool st i = Some v.
   Proof.
     induction st as [|[j0 w] st IH]; intros i j v V ND Hi I E; simpl in *; [contradiction|].
     inversion V as [|? ? Hj0 V']; subst. simpl in Hj0. destruct ND as [N1 N2]. fold sk.
     destruct I as [I|I].
     - inversion I; subst. rewrite E. reflexivity.
-    - assert (Hj : j < n). { unfold valid in V'. rewrite Forall_forall in V'. apply (V' (j, v) I). }
+    - assert (Hj : good j) by (apply (valid_in st (j, v)); auto).
       destruct (sk i j0) eqn:E0.
       + exfalso. specialize (N1 (j, v) I). simpl in N1.
         rewrite (sk_trans j0 i j) in N1; auto; try discriminate. rewrite sk_sym; auto.
@@ -190,6 +259,14 @@ Section Refine.
     intro i. unfold is_rep. rewrite forallb_forall. split; intros H j' Hj.
     - specialize (H j' ltac:(apply in_seq; lia)). apply negb_true_iff in H. assumption.
     - apply in_seq in Hj. apply negb_true_iff. apply H. lia.
+  Qed.
+  (* the test on a good key, from any smaller index: Go's == when that index is good, false otherwise *)
+  Lemma tst_below : forall j' i, good i -> j' < i -> tst j' i = sk j' i.
+  Proof.
+    intros j' i Gi Hlt. pose proof (good_lt i Gi) as Hi. destruct (hk j') eqn:K.
+    - symmetry. apply Hcoh; auto. split; auto. lia.
+    - destruct (Hsep j' i ltac:(lia) Hi K (proj2 Gi)) as [-> _].
+      destruct (sk j' i) eqn:E; auto. destruct (same_key_hashable pool j' i E) as [K' _]. fold hk in K'. congruence.
   Qed.
 
   Lemma in_s_entries : forall hist i v, In (i, v) (s_entries pool tst hist) <->
@@ -211,19 +288,25 @@ Section Refine.
   Lemma entries_same : forall st hist, Inv st hist -> forall i v,
     In (i, v) (canon_entries pool st) <-> In (i, v) (s_entries pool tst hist).
   Proof.
-    intros st hist (V & ND & L) i v. rewrite in_canon_entries, in_s_entries. split.
+    intros st hist (V & ND & HG & L) i v. rewrite in_canon_entries, in_s_entries. split.
     - intros (j & I & C).
-      assert (Hj : j < n). { unfold valid in V. rewrite Forall_forall in V. apply (V (j, v) I). }
+      assert (Hj : good j) by (apply (valid_in st (j, v)); auto).
       destruct (canon_spec j Hj) as (B & T & M). rewrite C in *. repeat split; auto.
-      + apply is_rep_spec. intros j' H'. rewrite <- Hcoh by lia.
-        destruct (sk j' i) eqn:E; auto. rewrite <- (M j' H'). symmetry. apply (sk_trans j' i j); auto; lia.
+      + apply good_lt; auto.
+      + apply is_rep_spec. intros j' H'. rewrite (tst_below j' i B H').
+        destruct (sk j' i) eqn:E; auto. rewrite <- (M j' H'). symmetry.
+        apply (sk_trans j' i j); auto. apply (sk_good_l j' i); auto. pose proof (good_lt i B). lia.
       + rewrite <- L by auto. eapply t_find_in; eauto.
-    - intros (Hi & R & Lk). rewrite <- L in Lk by auto.
+    - intros (Hi & R & Lk).
+      assert (Gi : good i).
+      { split; auto. destruct (hk i) eqn:K; auto. rewrite (s_lookup_bad hist i HG Hi K) in Lk. discriminate. }
+      rewrite <- L in Lk by auto.
       destruct (t_find_some _ _ _ Lk) as (j & I & E). exists j. split; auto.
-      assert (Hj : j < n). { unfold valid in V. rewrite Forall_forall in V. apply (V (j, v) I). }
+      assert (Hj : good j) by (apply (valid_in st (j, v)); auto).
       apply canon_least; auto. intros j' H'. rewrite is_rep_spec in R.
-      destruct (sk j' j) eqn:E'; auto. rewrite <- (R j' H'). rewrite <- Hcoh by lia. symmetry.
-      apply (sk_trans j' j i); auto; try lia. rewrite sk_sym; auto.
+      destruct (sk j' j) eqn:E'; auto. rewrite <- (R j' H'). rewrite (tst_below j' i Gi H'). symmetry.
+      assert (Gj' : good j') by (apply (sk_good_l j' j); auto; lia).
+      apply (sk_trans j' j i); auto. rewrite sk_sym; auto.
   Qed.
 
   Lemma NoDup_canon : forall st, valid st -> nodupk st -> NoDup (canon_entries pool st).
@@ -232,7 +315,7 @@ Section Refine.
     induction st as [|[j w] st IH]; simpl; constructor.
     - inversion V as [|? ? Hj V']; subst. simpl in Hj. destruct ND as [N1 N2].
       intro H. apply in_map_iff in H as ([j' w'] & E & I). simpl in E.
-      assert (Hj' : j' < n). { unfold valid in V'. rewrite Forall_forall in V'. apply (V' (j', w') I). }
+      assert (Hj' : good j') by (apply (valid_in st (j', w')); auto).
       specialize (N1 (j', w') I). simpl in N1.
       destruct (canon_spec j Hj) as (B & T & _). destruct (canon_spec j' Hj') as (B' & T' & _). rewrite E in T'.
       rewrite (sk_trans j (canon pool j) j') in N1; auto; try discriminate. rewrite sk_sym; auto.
@@ -276,14 +359,18 @@ Section Refine.
   Lemma obs_step : forall st hist o, Inv st hist -> op_in_range n o = true ->
     obs_equiv (snd (t_step pool st o)) (s_obs pool tst hist o).
   Proof.
-    intros st hist o I R. pose proof I as (V & ND & L).
-    destruct o as [i v|i|i| | |]; simpl in R; try apply Nat.ltb_lt in R; simpl.
-    - rewrite (Hhash i R). reflexivity.
-    - rewrite (Hhash i R). simpl. rewrite L by auto. reflexivity.
-    - rewrite (Hhash i R). simpl. unfold has_value. rewrite L by auto. reflexivity.
-    - reflexivity.
-    - rewrite (count_ok st hist I). reflexivity.
-    - apply entries_perm. assumption.
+    intros st hist o I R. pose proof I as (V & ND & HG & L). unfold s_obs.
+    destruct (op_refused pool o) eqn:Ref.
+    - apply refused_iff in Ref; auto. destruct Ref as (i & K & Hi & B).
+      pose proof (bad_key_ok i Hi B) as KO.
+      destruct o; simpl in K; inversion K; subst; simpl; rewrite KO; reflexivity.
+    - destruct o as [i v|i|i| | |]; simpl.
+      + rewrite (good_key_ok i (accepted_good _ i R Ref eq_refl)). reflexivity.
+      + pose proof (accepted_good _ i R Ref eq_refl) as Gi. rewrite (good_key_ok i Gi). simpl. rewrite L by auto. reflexivity.
+      + pose proof (accepted_good _ i R Ref eq_refl) as Gi. rewrite (good_key_ok i Gi). simpl. unfold has_value. rewrite L by auto. reflexivity.
+      + reflexivity.
+      + rewrite (count_ok st hist I). reflexivity.
+      + apply entries_perm. assumption.
   Qed.
 
   Theorem refine_run : forall ops st hist, Inv st hist -> forallb (op_in_range n) ops = true ->
@@ -305,15 +392,19 @@ Theorem table_refines_map : forall pool tst ops,
   Forall2 obs_equiv (t_run pool [] ops) (s_run pool tst [] ops).
 Proof.
   intros pool tst ops G R. unfold pool_ok in G.
-  apply andb_true_iff in G as [G E]. apply andb_true_iff in G as [H C].
+  apply andb_true_iff in G as [C E].
   unfold pool_equiv in E. apply andb_true_iff in E as [E T]. apply andb_true_iff in E as [Rf S].
+  assert (CC : forall i j, i < List.length pool -> j < List.length pool ->
+            (if key_hashable pool i && key_hashable pool j then Bool.eqb (same_key pool i j) (tst i j)
+             else negb (key_hashable pool i || key_hashable pool j) || negb (tst i j)) = true).
+  { intros i j Hi Hj. exact (forallb_seq _ _ (forallb_seq _ _ C i Hi) j Hj). }
   apply refine_run; auto.
-  - intros i Hi. pose proof (forallb_seq _ _ H i Hi) as K. simpl in K.
-    destruct (key_ok pool i) as [[|]|]; try discriminate; reflexivity.
-  - intros i j Hi Hj. pose proof (forallb_seq _ _ (forallb_seq _ _ C i Hi) j Hj) as K. apply eqb_prop in K. assumption.
-  - intros i Hi. exact (forallb_seq _ _ Rf i Hi).
-  - intros i j Hi Hj. pose proof (forallb_seq _ _ (forallb_seq _ _ S i Hi) j Hj) as K. apply eqb_prop in K. assumption.
-  - intros i j k Hi Hj Hk A B. pose proof (forallb_seq _ _ (forallb_seq _ _ (forallb_seq _ _ T i Hi) j Hj) k Hk) as K.
+  - intros i j [Hi Ki] [Hj Kj]. pose proof (CC i j Hi Hj) as K. rewrite Ki, Kj in K. simpl in K. apply eqb_prop in K. assumption.
+  - intros i j Hi Hj Ki Kj. pose proof (CC i j Hi Hj) as K1. pose proof (CC j i Hj Hi) as K2.
+    rewrite Ki, Kj in K1, K2. simpl in K1, K2. apply negb_true_iff in K1, K2. auto.
+  - intros i [Hi _]. exact (forallb_seq _ _ Rf i Hi).
+  - intros i j [Hi _] [Hj _]. pose proof (forallb_seq _ _ (forallb_seq _ _ S i Hi) j Hj) as K. apply eqb_prop in K. assumption.
+  - intros i j k [Hi _] [Hj _] [Hk _] A B. pose proof (forallb_seq _ _ (forallb_seq _ _ (forallb_seq _ _ T i Hi) j Hj) k Hk) as K.
     rewrite A, B in K. simpl in K. assumption.
   - apply Inv_init.
 Qed.
